@@ -160,6 +160,15 @@ def check(v, prop, families, extra_clause_props=(), also=()):
         families = [dict(fam, family='tlc', quick=nb, thorough=nb, knobs=dict(fam.get('knobs', {}), file=path, sequential=True,
                                                                                base=fam.get('first', 0)))
                     if fam['family'] == 'tlccover' else fam for fam in families]
+    if any(fam['family'] == 'tlccover2' for fam in families):
+        # ... and of the TWO-interaction design model (RSocketMC2): frames of two streams interleaved in every modelled way
+        from . import tlcsched
+        path, nb, stats = tlcsched.cover2(thorough, max_paths=6000 if thorough else 800)
+        v.add('tlc_cover2_behaviours', nb)
+        v.coverage['tlc_cover2'] = {c: dict(cov, covering_paths=p) for c, (e, p, cov) in stats.items()}
+        families = [dict(fam, family='tlc2', quick=nb, thorough=nb, knobs=dict(fam.get('knobs', {}), file=path, sequential=True,
+                                                                                base=fam.get('first', 0)))
+                    if fam['family'] == 'tlccover2' else fam for fam in families]
     for fam in families:
         n = fam['thorough'] if thorough else fam['quick']
         jobs += split_jobs(fam['family'], seed, n, fam.get('knobs', {}), per=fam.get('per', 25), first=fam.get('first', 0))
